@@ -124,8 +124,18 @@ def run_ledger(C, P, rule, entry_ids, label):
     n_auto = defaultdict(int)
     n_rev = 0
     groups = defaultdict(list)
+    total = None
     for s in sites:
         d = PN.auto_discharge(s)
+        if not d:
+            import re as _re
+            m = _re.match(r'^regex::(validate_regex_\d+)(::\{closure#\d+\})*$', s.b.short)
+            if m:
+                if total is None:
+                    import c19
+                    total = c19.total_validators(P.facts_dir)
+                if m.group(1) in total:
+                    d = 'c19-total: %s is proven to be defined on every byte string (C19: true and false languages cover all inputs / table well formed)' % m.group(1)
         if d:
             n_auto[d.split(':')[0]] += 1
             C.ok(rule, s.key(), d, sample={'site': s.key(), 'at': s.where(), 'discharge': d.split(':')[0]} if sum(n_auto.values()) % 40 == 1 else None)
